@@ -7,6 +7,7 @@ by the invariant of the sidecar contract; calls to functions under contract asse
 obligations `path-condition => goal`; nothing is decided here.
 """
 import ast
+import os
 import z3
 
 from .sorts import *          # noqa
@@ -196,7 +197,11 @@ class Engine:
         self.cur_contract = None
         self.path_counter = 0
         self.feas = z3.Solver()
-        self.feas.set('timeout', 1500)
+        # deterministic budget (z3 resource units, independent of machine load) instead of a
+        # wall-clock timeout: the set of explored paths, hence of obligation labels, must not
+        # depend on how busy the 16 cores are
+        self.feas.set('rlimit', int(os.environ.get('PYVC_FEAS_RLIMIT', '4000000')))
+        self.feas.set('timeout', 20000)
         self.loop_ordinals = {}
         self.inline_class_stack = []
         self.stats = {'paths': 0, 'feas_checks': 0, 'inlined': set(), 'callee_contracts': set()}
@@ -283,11 +288,14 @@ class Engine:
     # ------------------------------------------------------------------------------------------
     # feasibility
 
-    _quant_cache = {}
-
     def quantifier_free(self, f):
+        # per engine, and the cached entry keeps the AST alive: z3 reuses AST ids after garbage
+        # collection, so an id-keyed cache shared across functions of one worker process went
+        # stale and made the set of explored paths depend on what the worker had verified before
         k = f.get_id()
-        r = self._quant_cache.get(k)
+        cache = self.__dict__.setdefault('_quant_cache', {})
+        ent = cache.get(k)
+        r = ent[1] if ent is not None else None
         if r is None:
             r = True
             stack = [f]
@@ -301,7 +309,7 @@ class Engine:
                     r = False
                     break
                 stack.extend(x.children())
-            self._quant_cache[k] = r
+            cache[k] = (f, r)
         return r
 
     def feasible(self, st, extra=None):
@@ -318,6 +326,12 @@ class Engine:
             r = self.feas.check()
         finally:
             self.feas.pop()
+        if r == z3.unknown:
+            # kept (sound), but the path exists only because the solver gave up: obligations
+            # below it are marked so that they are never *expected* by later runs
+            self.stats['feas_unknown'] = self.stats.get('feas_unknown', 0) + 1
+            if not st.trace or st.trace[-1] != '?':
+                st.trace.append('?')
         return r != z3.unsat
 
     def entails(self, st, f):
@@ -403,6 +417,8 @@ class Engine:
         if getattr(self, 'variant', None):
             fn = fn + '#' + self.variant
         name = '%s/%s.%s#%d' % (fn, kind, label, len(self.obls))
+        if '?' in st.trace:
+            extra = dict(extra or {}, uncertain_path=True)
         self.obls.append(Obl(name, props if props is not None else self.cur_contract.props,
                              st.pc, goal, kind, fn, label, '.'.join(st.trace), line, extra))
 
